@@ -20,6 +20,7 @@ Record ccase := CC {
   c_arr : list (Z * bytes);         (* arrivals after the publish: ns since the publish, payload *)
   c_parse : list (bytes * bytes);   (* payload -> summary of resprot.ParseResponse(payload) *)
   g_resp : bytes;                   (* summary of the returned Response *)
+  g_coarse : bytes;                 (* the same with the Message replaced by * when the code is system.internalError *)
   g_cbs : list (nat * Z);           (* callback invocations in order: (index, duration ns) *)
   g_subscribed : bool;              (* ChanSubscribe returned a subscription *)
   g_published : bool;               (* PublishRequest was called and succeeded *)
@@ -40,6 +41,12 @@ Fixpoint list_eqb {A} (e : A -> A -> bool) (a b : list A) : bool :=
   | _, _ => false
   end.
 Definition cbs_eqb := list_eqb cb_eqb.
+
+(* c_parse is produced by a reference parser in the harness (encoding/json into the harness' own
+   struct + the one-member rule), NOT by resprot.ParseResponse.  Where the reference reports an
+   invalid response its entry is in the coarse form (the decoder's wording is not compared), so a
+   returned response matches an expectation if either of its two summaries equals it. *)
+Definition resp_is (c : ccase) (e : bytes) : bool := beq e (g_resp c) || beq e (g_coarse c).
 
 Definition parse_of (c : ccase) (p : bytes) : bytes :=
   match alookup p (c_parse c) with Some s => s | None => [0%N] end.
@@ -78,7 +85,10 @@ Fixpoint separated (now dl : Z) (arr : list (Z * bytes)) : bool :=
    6 script not separated by the margin (the harness generated a racy script) *)
 Definition check_case (c : ccase) : list N :=
   let r := send (c_ncb c) (c_fail c) (c_T c) (c_arr c) in
-  ((if beq (expected_summary c (r_out r)) (g_resp c) then [] else [1%N]) ++
+  ((if (match r_out r with
+        | OResponse _ => resp_is c (expected_summary c (r_out r))
+        | _ => beq (expected_summary c (r_out r)) (g_resp c)
+        end) then [] else [1%N]) ++
    (if cbs_eqb (r_cbs r) (g_cbs c) then [] else [2%N]) ++
    (if Bool.eqb (r_subscribed r) (g_subscribed c) && Bool.eqb (r_published r) (g_published c) then [] else [3%N]) ++
    (if Bool.eqb (r_released r) (g_released c) then [] else [4%N]) ++
@@ -122,7 +132,7 @@ Definition viol_case (c : ccase) : list N :=
   let '(got, now', dl') := recv_run 0 (c_T c) pre in
   let all_pre_in_time := Nat.eqb (length got) (length pre) in
   let first_in_time := match first with Some (t0, _) => all_pre_in_time && (Z.max now' t0 <? dl') | None => false end in
-  let is_first := match first with Some (_, p) => beq (g_resp c) (parse_of c p) | None => false end in
+  let is_first := match first with Some (_, p) => resp_is c (parse_of c p) | None => false end in
   let is_tmo := beq (g_resp c) tmo_summary in
   (match c_fail c with
    | FNone =>
